@@ -85,6 +85,7 @@ package beacon
 //@   opt noalloc
 //@   ensures (err != nil) == ce_epc_err(e)
 //@   ensures err == nil ==> epc == ce_epc(e) && epc != nil && epc.ValidatorPubkeyCache != nil
+//@   ensures wellformed: err == nil ==> epc.Spec != nil && epc.Spec.SLOTS_PER_EPOCH != 0 && epc.PreviousEpoch != nil && epc.CurrentEpoch != nil && epc.NextEpoch != nil && sh_wf(epc.PreviousEpoch.Committees, epc.Spec.SLOTS_PER_EPOCH) && sh_wf(epc.CurrentEpoch.Committees, epc.Spec.SLOTS_PER_EPOCH) && sh_wf(epc.NextEpoch.Committees, epc.Spec.SLOTS_PER_EPOCH)
 
 //@ func (e ChainEntry) State(ctx) (state, err)
 //@   trusted
